@@ -373,10 +373,33 @@ def _chunks(items, processes, chunksize):
 
 
 class _Result:
-    def __init__(self, value=None, exc=None):
-        self._v, self._e = value, exc
+    """AsyncResult / Future stand-in.  The work is DEFERRED until somebody waits for it: the
+    legal schedule in which the workers are slower than the submitting thread.  Work nobody ever
+    waits for is still pending when the evaluation returns and is reported as such."""
+
+    def __init__(self, thunk, callback=None, error_callback=None):
+        self._thunk = thunk
+        self._cb, self._ecb = callback, error_callback
+        self._done = False
+        self._v = self._e = None
+        PENDING.append(self)
+
+    def _force(self):
+        if not self._done:
+            self._done = True
+            if self in PENDING:
+                PENDING.remove(self)
+            try:
+                self._v = self._thunk()
+                if self._cb:
+                    self._cb(self._v)
+            except Exception as e:
+                self._e = e
+                if self._ecb:
+                    self._ecb(e)
 
     def get(self, timeout=None):
+        self._force()
         if self._e is not None:
             raise self._e
         return self._v
@@ -384,18 +407,34 @@ class _Result:
     result = get
 
     def wait(self, timeout=None):
-        pass
+        self._force()
 
     def ready(self):
-        return True
+        return self._done
 
     done = ready
 
     def successful(self):
+        self._force()
         return self._e is None
 
     def exception(self, timeout=None):
+        self._force()
         return self._e
+
+    def add_done_callback(self, fn):
+        self._force()
+        fn(self)
+
+
+PENDING = []
+
+
+def drain_pending():
+    """Forget deferred work (called between evaluations); returns how much there was."""
+    n = len(PENDING)
+    del PENDING[:]
+    return n
 
 
 class SimPool:
@@ -415,8 +454,8 @@ class SimPool:
         if initializer is not None:
             initializer(*initargs)
 
-    def _run(self, func, items, chunksize, star=False):
-        if self._closed:
+    def _run(self, func, items, chunksize, star=False, unordered=False, force=False):
+        if self._closed and not force:
             raise ValueError("Pool not running")
         items = list(items)
         if not items:
@@ -440,8 +479,9 @@ class SimPool:
             if not ok:
                 raise val
         out = []
-        for ok, val in results:
-            out.extend(val)
+        order = completion if unordered else range(len(results))
+        for i in order:
+            out.extend(results[i][1])
         return out
 
     def map(self, func, iterable, chunksize=None):
@@ -454,39 +494,32 @@ class SimPool:
         return iter(self._run(func, iterable, chunksize))
 
     def imap_unordered(self, func, iterable, chunksize=1):
-        return iter(self._run(func, iterable, chunksize))
-
-    def _async(self, fn):
-        try:
-            return _Result(value=fn())
-        except Exception as e:
-            return _Result(exc=e)
+        # results in COMPLETION order, as the real pool yields them
+        return iter(self._run(func, iterable, chunksize, unordered=True))
 
     def map_async(self, func, iterable, chunksize=None, callback=None, error_callback=None):
-        r = self._async(lambda: self._run(func, iterable, chunksize))
-        if r.successful() and callback:
-            callback(r._v)
-        if not r.successful() and error_callback:
-            error_callback(r._e)
-        return r
+        items = list(iterable)
+        return _Result(lambda: self._run(func, items, chunksize), callback, error_callback)
 
     def starmap_async(self, func, iterable, chunksize=None, callback=None, error_callback=None):
-        return self._async(lambda: self._run(func, iterable, chunksize, star=True))
+        items = list(iterable)
+        return _Result(lambda: self._run(func, items, chunksize, star=True), callback, error_callback)
 
     def apply(self, func, args=(), kwds={}):
         return self._run(lambda _: func(*args, **kwds), [None], 1)[0]
 
     def apply_async(self, func, args=(), kwds={}, callback=None, error_callback=None):
-        return self._async(lambda: self.apply(func, args, kwds))
+        return _Result(lambda: self._run(lambda _: func(*args, **kwds), [None], 1, force=True)[0], callback, error_callback)
 
     def close(self):
-        self._closed = True
+        self._closed = True  # like the real close(): does NOT wait for outstanding work
 
     def terminate(self):
         self._closed = True
 
     def join(self):
-        pass
+        for r in list(PENDING):  # join() waits for outstanding work
+            r._force()
 
     def __enter__(self):
         return self
@@ -514,9 +547,11 @@ class SimExecutor:
         return iter(self._pool._run(fn, items, 1, star=True))
 
     def submit(self, fn, *args, **kwargs):
-        return self._pool._async(lambda: fn(*args, **kwargs))
+        return self._pool.apply_async(fn, args, kwargs)
 
     def shutdown(self, wait=True, cancel_futures=False):
+        if wait and not cancel_futures:
+            self._pool.join()
         self._pool.close()
 
     def __enter__(self):
